@@ -2,7 +2,8 @@
 
 
 class LoopSpec(object):
-    def __init__(self, invariant, havoc=None, havoc_fields=None, scratch=None, name=None, reveal=None, check=None):
+    def __init__(self, invariant, havoc=None, havoc_fields=None, scratch=None, name=None, reveal=None, check=None, entry=None):
+        self.entry = entry                  # fn(L) -> list of (name, goal[, using]) lemmas proved at loop entry, in order
         self.invariant = invariant          # fn(L, k) -> Bool ; L = view of locals (+ L.f = frame)
         self.havoc = dict(havoc or {})      # local name -> kind ('real','int','bool','optreal', callable(ctx))
         self.havoc_fields = list(havoc_fields or [])  # paths rooted at a local, e.g. "xAxis.current"
@@ -70,8 +71,8 @@ class Contract(object):
         self.raises_.append((tname, when))
         return self
 
-    def loop(self, ordinal, invariant, havoc=None, havoc_fields=None, scratch=None, reveal=None, check=None):
-        self.loops[ordinal] = LoopSpec(invariant, havoc, havoc_fields, scratch, reveal=reveal, check=check)
+    def loop(self, ordinal, invariant, havoc=None, havoc_fields=None, scratch=None, reveal=None, check=None, entry=None):
+        self.loops[ordinal] = LoopSpec(invariant, havoc, havoc_fields, scratch, reveal=reveal, check=check, entry=entry)
         return self
 
     def reveal(self, fn):
